@@ -28,6 +28,7 @@ type Job struct {
 	Tier     string  `json:"tier"`
 	HangS    float64 `json:"hang_s"`
 	NoMin    bool    `json:"no_min"`
+	Canaries string  `json:"canaries"`
 }
 
 type JobResult struct {
@@ -120,6 +121,7 @@ func TestWorker(t *testing.T) {
 		job.HangS = 60
 	}
 	Thorough = job.Tier == "thorough"
+	CanaryDir = job.Canaries
 	res := &JobResult{Prop: job.Prop, Ops: map[string]int{}, Fired: map[string]int{}, IO: map[string]int{}, Probes: map[string]int{}, Counters: map[string]int{}}
 	start := time.Now()
 	write := func() {
@@ -196,6 +198,7 @@ func TestWorker(t *testing.T) {
 	for _, c := range Canaries(job.Prop) {
 		CompensateGetLeak = false
 		TolerateOldVersionLeak = false
+		TolerateEvictAbsorb = false
 		r := runOne(t, c.Plan)
 		if r.Viol != nil && r.Viol.Oracle == c.Oracle {
 			res.Known = append(res.Known, c.ID)
@@ -222,6 +225,12 @@ func TestWorker(t *testing.T) {
 		}
 		if id == "old-version-lazy-load-leak" {
 			TolerateOldVersionLeak = true
+		}
+		if id == "evict-absorbs-fault" {
+			TolerateEvictAbsorb = true
+		}
+		if os.Getenv("VERIF_NO_TOLERATE") != "" {
+			CompensateGetLeak, TolerateOldVersionLeak, TolerateEvictAbsorb = false, false, false
 		}
 	}
 
